@@ -348,8 +348,14 @@ func cmdCheck(args []string) {
 			"explanation":              def.Note,
 		},
 	}
-	os.MkdirAll(filepath.Join(verifDir, "evidence"), 0o755)
-	writeJSON(filepath.Join(verifDir, "evidence", def.ID+".json"), ev)
+	// runs against a scratch copy (-repo, e.g. a seeded change) must not overwrite the evidence of
+	// the real tree
+	evDir := filepath.Join(verifDir, "evidence")
+	if c.Repo != "/repo" {
+		evDir = filepath.Join(verifDir, "build", "evidence-scratch")
+	}
+	os.MkdirAll(evDir, 0o755)
+	writeJSON(filepath.Join(evDir, def.ID+".json"), ev)
 	fmt.Printf("%s: %d obligations, %d discharged, %d violations, %d known findings (%.1fs)\n", def.ID, total, discharged, violations, len(knownSeen), time.Since(t0).Seconds())
 	if violations > 0 {
 		os.Exit(1)
